@@ -392,7 +392,30 @@ pub fn format_function_args(
                     .1
                     .has_leading_comments(CommentSearch::All)
             {
-                let argument = arguments.iter().next().unwrap();
+                let mut argument = arguments.iter().next().unwrap();
+
+                // Look through redundant parentheses around the argument, e.g. `call(("string"))`: they are removed
+                // anyway later on, and then we would not omit the call parentheses until the next formatting run
+                while let Expression::Parentheses {
+                    contained,
+                    expression,
+                } = argument
+                {
+                    let (start_parens, end_parens) = contained.tokens();
+                    let is_plain_value = matches!(
+                        &**expression,
+                        Expression::String(_)
+                            | Expression::TableConstructor(_)
+                            | Expression::Parentheses { .. }
+                    );
+                    if !is_plain_value
+                        || trivia_util::token_contains_comments(start_parens)
+                        || trivia_util::token_contains_comments(end_parens)
+                    {
+                        break;
+                    }
+                    argument = expression;
+                }
 
                 // Take any trailing trivia from the end parentheses, in case we need to keep it
                 let trailing_comments = parentheses.tokens().1.trailing_trivia().cloned().collect();
